@@ -150,7 +150,17 @@ SYNTH = {
                     "    description ~ %logic=verif_harness.scribble\n"
                     "hostname *\n"),
 }
-SYNTH_ACL = {"T3": "ip access-list *\n    ~ %global\nntp server <srv>\nroute-map *\n    ~ %global\n",
+SYNTH["T6"] = ("huawei", "interface *\n"
+                         "    nd ra interval * %ignore_case\n"
+                         "    description ~\n"
+                         "sysname *\n")
+# the same row texts as T6 without the flag (patching rulebook of another device type, and an ACL): whatever is remembered
+# per row text must not carry one rule's flags over to another rule spelled the same
+SYNTH["T7"] = ("huawei", "interface *\n"
+                         "    nd ra interval *\n"
+                         "    description ~\n")
+SYNTH_ACL = {"T6": "interface *\n    nd ra interval *\n    description ~\n",
+             "T3": "ip access-list *\n    ~ %global\nntp server <srv>\nroute-map *\n    ~ %global\n",
              "T4": "interface * %prio=1\n    description ~ %cant_delete=1\n    mtu *\n"
                    "interface */Eth.*/\n    description ~ %cant_delete=0\n    mtu * %cant_delete=1\n"}
 SYNTH_JOBS = [
@@ -186,6 +196,12 @@ SYNTH_JOBS = [
     {"id": "synth/T5/b", "text": "T5", "logic": "harness-scribble", "add_comments": True,
      "old": [["hostname r1", []], ["interface e2", []]],
      "new": [["hostname r2", []], ["snmp-server host 3.3.3.3", []], ["interface e2", [["description z", []]]]]},
+    {"id": "synth/T6/a", "text": "T6", "logic": "ignore_case", "add_comments": False,
+     "old": [["interface e1", [["ND RA Interval 10", []], ["description Up", []]]], ["sysname a", []]],
+     "new": [["interface e1", [["nd ra interval 10", []], ["description up", []]]], ["sysname a", []]]},
+    {"id": "synth/T7/a", "text": "T7", "logic": "same-rows-no-flag", "add_comments": False, "acl": "T6",
+     "old": [["interface e1", [["ND RA Interval 10", []], ["description Up", []]]]],
+     "new": [["interface e1", [["nd ra interval 10", []], ["description up", []]]]]},
     {"id": "synth/T3/b", "text": "T3", "logic": "default_instead_undo", "add_comments": False,
      "old": [["ip access-list B", [["permit 9", []]]], ["ntp server 3.3.3.3", []], ["no thing 1", []], ["stray row", []]],
      "new": [["route-map N", [["set z", []]]], ["stray row 2", []]]},
@@ -407,7 +423,10 @@ def template_is_cold():
     """the template has run nothing: every required lru cache is empty and no provider / registry instance exists"""
     import importlib
     for mod, name in REQUIRED_LRU:
-        if getattr(importlib.import_module(mod), name).cache_info().currsize:
+        fn = getattr(importlib.import_module(mod), name, None)
+        # (a cache that is no longer an lru_cache - a refactoring may keep it in a module-level dict - is part of the
+        #  generic fingerprint of module globals; it has no cache_info to ask)
+        if fn is not None and statehash._is_lru(fn) and fn.cache_info().currsize:
             return False
     from annet import rulebook
     from annet.vendors import registry_connector
@@ -919,7 +938,11 @@ def completeness_scan():
     for mod, name in REQUIRED_LRU:
         comp = "lru:%s.%s" % (mod, name)
         fn = getattr(importlib.import_module(mod), name, None)
-        if comp not in comps or fn is None or not statehash._is_lru(fn):
+        if fn is None or not statehash._is_lru(fn):
+            # the function no longer carries an lru_cache: whatever holds its results now (a module-level dict, an
+            # attribute) is covered by the generic walk over the globals of every loaded annet module - not a gap
+            out.setdefault("notes", []).append("%s.%s is not an lru_cache in this tree; its state is covered as module globals" % (mod, name))
+        elif comp not in comps:
             out["missing"].append({"module": mod, "name": name, "kind": "required-lru", "scope": "module"})
         elif fn.cache_info().currsize == 0 and name != "compile_ref_acl_text":
             out["missing"].append({"module": mod, "name": name, "kind": "required-lru-never-filled", "scope": "module"})
@@ -961,6 +984,8 @@ def report_scan(scan, unit, ctx):
     ctx.notes.append("opaque types in state: %s" % ", ".join(scan["opaque"]))
     for k in scan["changed_components"]:
         ctx.extra["state component changed by the jobs: " + k] += 1
+    for n in scan.get("notes", []):
+        ctx.notes.append(n)
     for f in scan["missing"]:
         ctx.violation({"kind": "fingerprint-incomplete", "what": f["kind"], "module": f["module"], "name": f["name"]},
                       _case(unit["h"], None, scan=True), json.dumps(f))
